@@ -22,7 +22,7 @@ META = dict(
     stubs=["open() of /proc/stat and /proc/<pid>/stat rendered in the kernel's format", "os.sysconf", "threading.current_thread().ident (thread harness)",
            "time.sleep / _timer (virtual clock)"],
     bounds=dict(
-        quick=dict(cpus="aggregate line + 2 CPUs, one unit symbolic at a time", fields=[7, 8, 10], total_delta_ticks=TOTALS_Q, backwards="at most one of the first 8 counters of the symbolic unit decreases (which one is symbolic)", thread_calls=3, tick_range="[0, 2^64)"),
+        quick=dict(cpus="aggregate line + 2 CPUs, one unit symbolic at a time", fields=[7, 8, 9, 10], total_delta_ticks=TOTALS_Q, backwards="at most one of the first 8 counters of the symbolic unit decreases (which one is symbolic)", thread_calls=3, tick_range="[0, 2^64)"),
         thorough=dict(cpus="aggregate line + 2 CPUs, one unit symbolic at a time", fields=[7, 8, 9, 10], total_delta_ticks=TOTALS_T, backwards="at most one of the first 8 counters of the symbolic unit decreases (which one is symbolic)", thread_calls=4, tick_range="[0, 2^64)"),
     ),
     outside=["total deltas other than the pinned boundary values (all individual deltas stay symbolic)", "two counters of one CPU decreasing at once", "GIL-level races inside one source line",
@@ -84,7 +84,7 @@ def times(ctx, nf):
 
 
 @harness("C07.percent",
-         quick=[dict(nf=f, T=T, unit=u) for f, u in ((7, "sys"), (8, 0), (10, 1), (10, "sys")) for T in TOTALS_Q],
+         quick=[dict(nf=f, T=T, unit=u) for f, u in ((7, "sys"), (8, 0), (9, 1), (10, 1), (10, "sys")) for T in TOTALS_Q],
          thorough=[dict(nf=f, T=T, unit=u) for f in (7, 8, 9, 10) for u in ("sys", 0, 1) for T in TOTALS_T])
 def percent(ctx, nf, T, unit):
     k = simk.Kernel(ctx)
@@ -151,12 +151,15 @@ class _Thr:
 @harness("C07.threads", quick=[dict(ncalls=3, fn="cpu_percent"), dict(ncalls=3, fn="cpu_times_percent")],
          thorough=[dict(ncalls=4, fn="cpu_percent"), dict(ncalls=4, fn="cpu_times_percent")])
 def threads(ctx, ncalls, fn):
-    """Each calling thread is measured against its own previous sample (symbolic caller id per call)."""
+    """Each calling thread is measured against its own previous sample: a history of calls with a symbolic caller id and a
+    symbolic blocking/non-blocking form per call (a blocking call samples before and after its sleep, during which the kernel
+    counters move on, and leaves its second sample as that thread's previous sample)."""
     k = simk.Kernel(ctx)
     nf = 7
-    DT = [0, 100, 250, 400, 300]       # pinned total delta between consecutive snapshots (ticks; all >= 1 s, see known finding C07-times-percent-subsecond)
+    nsnap = 2 * ncalls + 1
+    DT = [0] + [100, 250, 400, 300, 150, 700, 200, 500, 350][:nsnap - 1]   # pinned total delta between consecutive snapshots (ticks; all >= 1 s)
     snaps = [[ctx.int(f"s0_{j}", 0, 2**62) for j in range(nf)]]
-    for i in range(1, ncalls):
+    for i in range(1, nsnap):
         cur = [ctx.int(f"s{i}_{j}", 0, 2**62) for j in range(nf)]
         for j in range(nf):
             ctx.assume(cur[j] >= snaps[-1][j])
@@ -164,31 +167,44 @@ def threads(ctx, ncalls, fn):
         snaps.append(cur)
     state = {"i": 0}
     k.files["/proc/stat"] = lambda: render(k, {"sys": snaps[state["i"]], 0: CONC[0], 1: CONC[1]}, nf)
+    orig_sleep = k.sleep
+
+    def sleep(d):               # the kernel counters move on while the caller sleeps
+        orig_sleep(d)
+        state["i"] += 1
+
+    k.sleep = sleep
     thr = _Thr()
     last = {}
     with k.installed(extra=[(psutil, "threading", thr)]):
-        for i in range(ncalls):
-            tid = ctx.choice(f"tid{i}", [1, 2])
+        for c in range(ncalls):
+            tid = ctx.choice(f"tid{c}", [1, 2])
+            blocking = ctx.flag(f"blocking{c}")
             thr.ident = tid
-            state["i"] = i
-            r = getattr(psutil, fn)()
-            base = last.get(tid, i)
-            last[tid] = i
-            d = [y - x for x, y in zip(snaps[base], snaps[i])]
-            tot = sum(DT[base + 1:i + 1])
+            if c:
+                state["i"] += 1
+            a = state["i"]
+            r = getattr(psutil, fn)(interval=0.5) if blocking else getattr(psutil, fn)()
+            b = state["i"]
+            base = a if blocking else last.get(tid, b)
+            ctx.prove(b == (a + 1 if blocking else a), "blocking-samples-around-sleep")
+            last[tid] = b
+            d = [y - x for x, y in zip(snaps[base], snaps[b])]
+            tot = sum(DT[base + 1:b + 1])
             busy = ctx.sum(d) - d[3] - d[4]
+            info = f"call {c}: tid={tid} blocking={blocking} measured between snapshots {base}..{b}"
             if fn == "cpu_percent":
                 if ctx.symbolic:
                     src = getattr(r, "round_src", None)
-                    ctx.prove(ctx.eq(r, 0) if tot == 0 else (src is not None and ctx.eq(src[0] * tot, 100 * busy)), "thread-own-baseline")
+                    ctx.prove(ctx.eq(r, 0) if tot == 0 else (src is not None and ctx.eq(src[0] * tot, 100 * busy)), "thread-own-baseline", detail=info)
                 else:
-                    ctx.prove(r == 0.0 if tot == 0 else abs(r - 100.0 * busy / tot) <= 0.05 + 1e-9, "thread-own-baseline")
+                    ctx.prove(r == 0.0 if tot == 0 else abs(r - 100.0 * busy / tot) <= 0.05 + 1e-9, "thread-own-baseline", detail=info)
             else:
                 if ctx.symbolic:
                     ctx.prove(ctx.all([ctx.eq(v, 0) for v in r]) if tot == 0 else
-                              ctx.all([ctx.all([(v * tot - 100 * dj) * 20 <= tot, (v * tot - 100 * dj) * 20 >= -tot]) for v, dj in zip(r, d)]), "thread-own-baseline")
+                              ctx.all([ctx.all([(v * tot - 100 * dj) * 20 <= tot, (v * tot - 100 * dj) * 20 >= -tot]) for v, dj in zip(r, d)]), "thread-own-baseline", detail=info)
                 else:
-                    ctx.prove(all(v == 0 for v in r) if tot == 0 else all(abs(v - 100.0 * dj / tot) <= 0.05 + 1e-9 for v, dj in zip(r, d)), "thread-own-baseline")
+                    ctx.prove(all(v == 0 for v in r) if tot == 0 else all(abs(v - 100.0 * dj / tot) <= 0.05 + 1e-9 for v, dj in zip(r, d)), "thread-own-baseline", detail=info)
 
 
 @harness("C07.interval", quick=[dict(fn=f) for f in ("cpu_percent", "cpu_times_percent", "proc")])
